@@ -33,6 +33,94 @@ CODES = {
     },
 }
 
+HIST_MISMATCH = {
+    "1:1": "result of a top-level call differs from the model",
+    "1:2": "machine time / active states / queue tick / Err after a call differ from the model",
+    "1:4": "number of traced transitions differs from the model",
+    "1:5": "a transition record (type, called, times, target, accepted, handler range) differs from the model",
+    "1:6": "tracer event sequence differs from the model",
+    "1:7": "handler call log (name, binding, snapshot, nested results) differs from the model",
+    "1:8": "a panic escaped (or did not escape) to the caller, unlike in the model",
+    "1:10": "model ran out of fuel",
+    "1:11": "resolver Require topology differs from topo_sort (deterministic DFS order)",
+    "1:12": "a call blocked forever (or did not), unlike in the model",
+}
+for _p in ("C01", "C02", "C03", "C05", "C07", "C08", "C11", "C14"):
+    CODES.setdefault(_p, {}).update(HIST_MISMATCH)
+CODES["C01"].update({
+    "2:1": "tick parity does not match the active states after a call",
+    "2:2": "tick parity does not match the active states inside a handler",
+    "2:3": "a transition's TimeBefore parity does not match StatesBefore",
+    "2:4": "a tick decreased",
+    "2:5": "a tick moved by something else than the documented step (+1 flip, +2 re-entered Multi, 0)",
+    "2:6": "a canceled or check-only transition moved a tick",
+    "2:7": "a transition's TimeAfter differs from the machine time at TransitionEnd",
+    "2:8": "TimeAfter parity does not match the target states",
+})
+CODES["C02"].update({
+    "2:21": "an active state misses one of its Require states",
+    "2:220": "an active state is Removed by another active state although both survived the blocked-by scan",
+    "2:221": "an active state is Removed by another active state (re-)introduced by the second parseAdd pass",
+    "2:230": "an activated state's Add state is inactive without being excluded",
+    "2:231": "an activated state's Add state is inactive: the activated state was itself introduced by the second pass (Add chain deeper than two levels)",
+    "2:232": "an activated state's Add state was dropped by the scan because of a blocker that is not in the target",
+    "2:24": "a state became active without justification",
+    "2:250": "a state became inactive without justification",
+    "2:251": "a state became inactive for a Require that was missing only in the first resolver pass",
+})
+CODES["C03"].update({
+    "2:31": "a call returned Canceled but ticks / states / queue tick moved",
+    "2:32": "Add/Set returned Executed but a called state is not active (or the transition was not accepted)",
+    "2:33": "Remove returned Executed but a called state is still active",
+    "2:34": "CanAdd/CanRemove changed states, ticks or the queue tick",
+    "2:35": "CanAdd/CanRemove did not predict the result of the same mutation issued next",
+    "2:36": "the call's own transition has the wrong kind (check vs mutation)",
+    "2:37": "Queued returned on an idle machine",
+})
+CODES["C05"].update({
+    "2:51": "handlers of one transition ran out of the documented phase order",
+    "2:52": "a negotiation handler did not observe the machine as it was before the transition",
+    "2:53": "a final handler did not observe the applied target",
+    "2:54": "a negotiation handler returned false but the transition went on",
+    "2:55": "final handlers did not run exactly once per changed state per binding",
+    "2:56": "a final handler ran in a transition that was not accepted",
+    "2:57": "a state's handler ran before the handler of a state it Requires",
+    "2:580": "a state's handler ran before the handler of an adjacent state it lists in After",
+    "2:581": "a state's handler ran before the handler of a state it lists in After (separated by other states)",
+})
+CODES["C07"].update({
+    "2:71": "an accepted, state-changing mutation was not followed by the auto mutation calling exactly the inactive unblocked Auto states",
+    "2:72": "an auto mutation followed a transition that must not trigger one",
+    "2:73": "a called Auto state accepted by relations and not vetoed by its own handlers did not end up active",
+    "2:74": "a panic escaped to the caller",
+})
+CODES["C08"].update({
+    "2:80": "tick parity does not match activity after a fault",
+    "2:81": "a panic escaped to the caller",
+    "2:82": "the machine wedged: a call blocked forever",
+    "2:84": "a recovered panic was not followed by the prepended Add[Exception]",
+    "2:86": "a fault in the negotiation phase did not cancel the transition or moved ticks",
+    "2:87": "a handler timeout was not reported on ErrInternal",
+    "2:890": "rollback after a fault in a State handler is wrong",
+    "2:891": "rollback after a fault in an End handler is wrong",
+    "2:892": "rollback after a fault in AnyState is wrong",
+})
+CODES["C11"].update({
+    "2:111": "results / machine times differ between re-executions of the same history",
+    "2:112": "handler call sequence differs between re-executions",
+    "2:113": "transition records differ between re-executions",
+})
+CODES["C14"].update({
+    "2:141": "tracer events are not Init;Start;Finals?;End brackets",
+    "2:142": "number of traced transitions / queued mutations mismatch",
+    "2:143": "TransitionFinals not exactly for accepted non-check transitions",
+    "2:144": "a transition's time-before differs from the previous time-after",
+    "2:145": "a canceled or check transition reports a change",
+    "2:146": "time-after differs from the machine time at TransitionEnd",
+    "2:147": "the last report differs from the machine's final time",
+    "2:148": "an additional tracer saw a different event sequence",
+})
+
 
 def describe(prop, code):
     d = CODES.get(prop, {})
@@ -64,6 +152,23 @@ PROPS = {
         ],
     },
 }
+
+_HIST_ASSUMPTIONS = ['handlers are map bindings (HandlersBindMaps) with generated, collision-free state names; struct bindings and StatePrefix are not exercised', 'one goroutine issues the calls (schedules are the subject of C04/C06/C12/C13)', 'log level LogNothing; step logging (LogSteps) off']
+for _p in ("C01", "C02", "C03", "C05", "C07", "C08", "C11", "C14"):
+    PROPS[_p] = {"level": "proof", "gen": [], "harness": True, "assumptions": list(_HIST_ASSUMPTIONS)}
+PROPS["C08"]["timeout"] = 3000
+PROPS["C08"]["assumptions"].append("a stall is 120 ms against a HandlerTimeout of 30 ms; HandlerDeadline (10 s) is never reached")
+PROPS["C11"]["assumptions"].append("64 (thorough: 256) re-executions per case stand in for 'every run'")
+
+
+# properties contributed as data files: bin/props.d/<id>.json with the keys
+# {"spec": {...PROPS entry...}, "codes": {"1:1": "...", ...}}
+import glob as _glob, json as _json
+for _f in sorted(_glob.glob(os.path.join(VERIF, "bin", "props.d", "*.json"))):
+    _d = _json.load(open(_f))
+    _id = os.path.splitext(os.path.basename(_f))[0]
+    PROPS[_id] = _d.get("spec", {})
+    CODES.setdefault(_id, {}).update(_d.get("codes", {}))
 
 
 def run_gen(name, work, env):
